@@ -172,7 +172,7 @@ impl StateMachine<'_> {
         let mut handled_line = false;
         let (_mode_info, file_event) =
             parse_diff_header_line(&self.line, self.source == Source::GitDiff);
-        let name = get_repeated_file_path_from_diff_line(&self.diff_line).unwrap_or_default();
+        let name = self.file_path_from_diff_line();
         match file_event {
             FileEvent::Removed => {
                 self.minus_file = name;
@@ -220,6 +220,16 @@ impl StateMachine<'_> {
         )
     }
 
+    /// The file path repeated on the "diff --git" line, as it is to be displayed: like the paths
+    /// of the "---"/"+++" lines it is shown relative to the user's directory if so requested.
+    pub fn file_path_from_diff_line(&self) -> String {
+        let mut name = get_repeated_file_path_from_diff_line(&self.diff_line).unwrap_or_default();
+        if !name.is_empty() {
+            utils::path::relativize_path_maybe(&mut name, self.config);
+        }
+        name
+    }
+
     #[inline]
     fn test_pending_line_with_diff_name(&self) -> bool {
         matches!(self.state, State::DiffHeader(_)) || self.source == Source::DiffUnified
@@ -255,7 +265,7 @@ impl StateMachine<'_> {
                 _ => Cow::from(file),
             };
             let label = format_label(&self.config.file_modified_label);
-            let name = get_repeated_file_path_from_diff_line(&self.diff_line).unwrap_or_default();
+            let name = self.file_path_from_diff_line();
             // A "Binary files ... differ" line has left its note on the file names: keep it.
             let binary_note = if self.plus_file.ends_with(" (binary file)")
                 || self.minus_file.ends_with(" (binary file)")
